@@ -287,7 +287,8 @@ func checkC12ID(c IDCase) Outcome {
 	if v, p := Valid1("MIT WITH " + c.ID); !v {
 		return fail(key, "listed exception id %q is not accepted after WITH %s", c.ID, p)
 	}
-	for _, bad := range []string{c.ID, "LicenseRef-a WITH " + c.ID, c.ID + " WITH " + c.ID, "MIT AND " + c.ID, c.ID + "+", "MIT WITH " + c.ID + "+"} {
+	for _, bad := range []string{c.ID, "LicenseRef-a WITH " + c.ID, c.ID + " WITH " + c.ID, "MIT AND " + c.ID, c.ID + "+", "MIT WITH " + c.ID + "+",
+		"MIT " + c.ID, "(MIT) " + c.ID, "MIT OR ISC " + c.ID, "MIT WITH " + c.ID + " " + c.ID, "MIT+ " + c.ID, "LicenseRef-a " + c.ID} {
 		if v, _ := Valid1(bad); v {
 			return fail(key, "exception id accepted outside 'license WITH exception': ValidateLicenses({%q}) = valid", bad)
 		}
